@@ -29,9 +29,11 @@ def run(chk):
     from . import e10 as _e10
     _e10.run_U3(chk, ("yastn.tensor", "yastn.initialize"))
     from . import e10
-    e10.run_U(chk, ("yastn.tensor._merging", "yastn.tensor._contractions", "yastn.tensor._algebra", "yastn.tensor._legs", "yastn.initialize"), floor1=5, floor2=1)
+    e10.run_U(chk, ("yastn.tensor._merging", "yastn.tensor._contractions", "yastn.tensor._algebra", "yastn.tensor._legs", "yastn.tensor._tests", "yastn.initialize"), floor1=5, floor2=1)
 
 MUTANTS = [
+    ('mask test leaves the validation loop early', 'yastn/tensor/_tests.py', '            mask_needed = True\n    return mask_needed, haxes', '            mask_needed = True\n            break\n    return mask_needed, haxes', 'U12'),
+    ('legs_union decides from the first two legs', 'yastn/tensor/_legs.py', '        if any(leg.hf != legs[0].hf for leg in legs):', '        if legs[0].hf != legs[1].hf:', 'U13'),
     ('compatibility test ignores the dimensions of fused legs', 'yastn/tensor/_tests.py', '        if a.hfs[i1].t != b.hfs[i2].t or a.hfs[i1].D != b.hfs[i2].D:', '        if a.hfs[i1].t != b.hfs[i2].t:', 'F6'),
     ('mfs expanded front to back', 'yastn/tensor/_merging.py', '        for unfused, n in zip(nlegs[::-1], axes_mf[::-1]):\n            mfs = mfs[:n] + [(1,)] * unfused + mfs[n+1:]', '        for unfused, n in zip(nlegs, axes_mf):\n            mfs[n: n + 1] = [(1,)] * unfused', 'F7'),
     ('signatures popped for products only', 'yastn/tensor/_merging.py', '        ss = [tuple(s1.pop(it) for _ in range(no)) for s1 in s]\n        tt = [tuple(t1.pop(it) for _ in range(no)) for t1 in t]', "        tt = [tuple(t1.pop(it) for _ in range(no)) for t1 in t]\n        if op[it - 1] == 'p':\n            ss = [tuple(s1.pop(it) for _ in range(no)) for s1 in s]", 'F5'),
